@@ -369,7 +369,8 @@ func MonC04(c *MonCtx) {
 			if within {
 				for _, p := range post.Pods() {
 					if p.Namespace == ns && p.Labels[v1.ExtendedDaemonSetReplicaSetNameLabelKey] == v.RS.Name {
-						if _, has := p.Labels[v1.ExtendedDaemonSetReplicaSetCanaryLabelKey]; has {
+						// (the canary label is the key with the value "true": a template may carry the key with another value of its own)
+						if p.Labels[v1.ExtendedDaemonSetReplicaSetCanaryLabelKey] == v1.ExtendedDaemonSetReplicaSetCanaryLabelValue {
 							if pp := c.Pre.Pod(p.Namespace, p.Name); pp != nil {
 								c.Violate("C04d", "C04d/label: pod of the active replica set still carries the canary label after a full active sync", p.Name)
 							}
